@@ -31,6 +31,11 @@ pub enum AppState {
     NoHandshake,
     /// two publishes sent through the non-blocking API (ids 1, 2; the acknowledgement callback looks at the sink) and an awaited QoS 1 send (id 3)
     BusyNoBlock,
+    /// every publish and protocol handler the sequence starts stays suspended until the sequence is over (a request
+    /// that is being handled while the next packets arrive)
+    GatedAll,
+    /// a QoS 2 send (id 1) whose future was dropped after the PUBLISH was written, and an awaited QoS 1 send (id 2)
+    BusyAbandoned,
 }
 
 #[derive(Clone, Debug, PartialEq, Eq, Hash, Serialize, Deserialize)]
@@ -158,6 +163,19 @@ pub async fn run_case(c: Case) -> Result<CaseInfo, Failure> {
                 let waker = futures_noop_waker();
                 let mut cx = std::task::Context::from_waker(&waker);
                 if fut.as_mut().poll(&mut cx).is_pending() {
+                    futs.push(Some(fut));
+                }
+            }
+        }
+        AppState::GatedAll => {
+            app.default_open.set(false);
+        }
+        AppState::BusyAbandoned => {
+            for (kind, keep) in [(SendKind::Qos2, false), (SendKind::Qos1, true)] {
+                let mut fut = eut.send(SendSpec { kind, topic: "s/t".into(), payload: b"p".to_vec(), pid: None, user_prop: None });
+                let waker = futures_noop_waker();
+                let mut cx = std::task::Context::from_waker(&waker);
+                if fut.as_mut().poll(&mut cx).is_pending() && keep {
                     futs.push(Some(fut));
                 }
             }
@@ -306,8 +324,8 @@ fn exhaustive(ctx: &Ctx) -> Stats {
         for role in Role::ALL {
             let a = templates(role.is_v5()).len();
             let states: Vec<AppState> = match ctx.tier {
-                Tier::Quick => vec![AppState::Idle, AppState::BusySends, AppState::NoHandshake],
-                Tier::Thorough => vec![AppState::Idle, AppState::BusySends, AppState::NoHandshake],
+                Tier::Quick => vec![AppState::Idle, AppState::BusySends, AppState::NoHandshake, AppState::GatedAll],
+                Tier::Thorough => vec![AppState::Idle, AppState::BusySends, AppState::NoHandshake, AppState::GatedAll],
             };
             // quick: every sequence of length <= 3; thorough: length 4 over the whole alphabet as well
             for l in 1..=len {
@@ -328,7 +346,7 @@ fn exhaustive(ctx: &Ctx) -> Stats {
             let l2 = len.min(3) - usize::from(len == 3);
             for l in 1..=l2 {
                 let total = a.pow(l as u32);
-                for state in [AppState::BusyReceipt, AppState::BusyHandlers, AppState::BusySendsRot(1), AppState::BusySendsRot(2), AppState::BusySendsRot(3), AppState::BusyNoBlock] {
+                for state in [AppState::BusyReceipt, AppState::BusyHandlers, AppState::BusySendsRot(1), AppState::BusySendsRot(2), AppState::BusySendsRot(3), AppState::BusyNoBlock, AppState::BusyAbandoned] {
                     let mut idx = shard;
                     while idx < total {
                         let mut x = idx;
@@ -346,7 +364,7 @@ fn exhaustive(ctx: &Ctx) -> Stats {
 
 fn case_strategy(role: Role) -> BoxedStrategy<Case> {
     (
-        prop::sample::select(vec![AppState::Idle, AppState::BusySends, AppState::BusySendsRot(1), AppState::BusySendsRot(2), AppState::BusySendsRot(3), AppState::BusyReceipt, AppState::BusyHandlers, AppState::BusyNoBlock, AppState::NoHandshake]),
+        prop::sample::select(vec![AppState::Idle, AppState::BusySends, AppState::BusySendsRot(1), AppState::BusySendsRot(2), AppState::BusySendsRot(3), AppState::BusyReceipt, AppState::BusyHandlers, AppState::BusyNoBlock, AppState::NoHandshake, AppState::GatedAll, AppState::BusyAbandoned]),
         prop::collection::vec(0u8..40, 4..13),
     )
         .prop_map(move |(state, seq)| Case { role, state, seq })
@@ -366,7 +384,7 @@ pub fn run(ctx: &Ctx, started: Instant) -> i32 {
         level: "exploration",
         rule: "alphabet of 26 (v3) / 30 (v5) well-formed packet templates (every packet type either peer could emit, ids 1/2, PUBLISH QoS 0/1/2, a PUBLISH head whose payload is still owed and a payload tail, \
                acknowledgements of every type, CONNECT/CONNACK, DISCONNECT with/without session expiry, AUTH, PING both directions); every sequence of length <=3 (thorough: <=4) after the handshake against an idle \
-               application and against outstanding QoS1/QoS2/subscribe/unsubscribe sends, and replacing the handshake; length <=2 (3) against a held QoS 2 receipt, two gated inbound handlers , the outstanding sends in the three rotated orders (each kind oldest) and two publishes sent through the non-blocking API whose acknowledgement callback looks at the sink; random sequences of \
+               application, against outstanding QoS1/QoS2/subscribe/unsubscribe sends, against an application whose handlers all stay suspended until the sequence is over, and replacing the handshake; length <=2 (3) against a held QoS 2 receipt, two gated inbound handlers , the outstanding sends in the three rotated orders (each kind oldest) two publishes sent through the non-blocking API whose acknowledgement callback looks at the sink, and a QoS 2 send whose future was dropped after the PUBLISH was written; random sequences of \
                4..12 packets. Oracle: no panic in any task (application futures are polled by the driver), settle reaches a fixed point, at quiescence the connection is ended (at most one Stop) or alive and \
                answering a probe, all input consumed, after the peer closes the connection task finishes and every pending send resolves. Non-trivial = the sequence contains a packet unexpected in its protocol state; \
                distinct = (role, app state, sequence)"
